@@ -345,6 +345,9 @@ def run(tier, seed, rng, known, replay):
                 r['violations'].append({'replay': {'property': 'C11', 'kind': 'concurrent-deque', 'case_seed': c['seed'], 'maxlen': c['maxlen'],
                                                    'preset': c['preset'], 'programs': base.tag(c['programs']), 'schedule': x['sched'],
                                                    'acceptor': x['why']}, 'found_input': True, 'what': what})
+    from props import surface
+    for v_ in surface.constructors()[:2]:
+        r['violations'].append({'replay': {'property': 'C11', 'kind': 'surface-probe', 'probe': 'constructors', 'acceptor': v_}, 'found_input': True, 'what': v_})
     v = probe_d17()
     if v:
         k = base.match_known(known, {'cfg': {}}, None, v)
